@@ -179,4 +179,14 @@ theorem fd_agree {reg : Registry} {chain : List Link} {ls : List Layer} (k : Str
     rw [hy]
     omega
 
+/-- The derivation chain of a type statement that names a built-in type is the statement alone. -/
+theorem derives_builtin {reg : Registry} {root : Mod} {scope : List Stmt} {t : Stmt} {kind : String} {chain : List Link}
+    (hb : builtinNames.contains t.arg = true) (h : DerivesFrom reg root scope t kind chain) :
+    chain = [.ty root scope t] := by
+  cases h with
+  | builtin _ => rfl
+  | derived m td sc tt kind chain hbind _ _ =>
+    rw [Goyang.Lemmas.Types.binds_not_builtin hbind] at hb
+    cases hb
+
 end Goyang.Lemmas.TypesAgreeFull
